@@ -120,7 +120,19 @@ class NoneT(Ty):
         return None
 
 
+class RealT(Ty):
+    """python float, modelled as a mathematical real with UNINTERPRETED division (floats as reals: DESIGN section 7)"""
+    name = "Real"
+
+    def sort(self):
+        return z3.RealSort()
+
+    def decode(self, model, term):
+        return str(model.eval(term, model_completion=True))
+
+
 INT, BOOL, STR, TEXT, NONE = IntT(), BoolT(), StrT(), TextT(), NoneT()
+REAL = RealT()
 
 
 def _mangle(name):
